@@ -44,8 +44,13 @@ QMat(q) == LET w == q[1] a == q[2] b == q[3] c == q[4] IN
     <<2*(a*c-w*b),     2*(b*c+w*a),     w*w-a*a-b*b+c*c>>>>
 RotOfQuat(q) == Rot(QMat(q), QNorm2(q))
 
-(* ---- algebra on rotations (denominators multiply; not normalised, compare with REq) ---- *)
-RMul(A, B) == Rot(MMul(A.m, B.m), A.d * B.d)
+(* ---- algebra on rotations (reduced by the common divisor; compare with REq) ---- *)
+RECURSIVE GCD(_, _)
+AbsI(x) == IF x < 0 THEN -x ELSE x
+GCD(a, b) == IF AbsI(b) = 0 THEN AbsI(a) ELSE GCD(AbsI(b), AbsI(a) % AbsI(b))
+MGcd(M, d) == GCD(GCD(GCD(GCD(M[1][1], M[1][2]), GCD(M[1][3], M[2][1])), GCD(GCD(M[2][2], M[2][3]), GCD(M[3][1], M[3][2]))), GCD(M[3][3], d))
+RNorm(A) == LET g == MGcd(A.m, A.d) IN Rot([i \in 1..3 |-> [j \in 1..3 |-> A.m[i][j] \div g]], A.d \div g)
+RMul(A, B) == RNorm(Rot(MMul(A.m, B.m), A.d * B.d))
 RInv(A) == Rot(MT(A.m), A.d)
 REq(A, B) == MScale(B.d, A.m) = MScale(A.d, B.m)
 (* R v as a pair <<numerator vector, denominator>> *)
